@@ -215,6 +215,16 @@ def interleave_configs():
                 'after': [], 'before': [], 'eafter': [[1, [2, 1], 2], [3, [1, 2], 1]]})
     out.append({'napps': 3, 'applied': [1, 1, 1], 'pending': [2, 1, 1], 'newm': [False, False, True],
                 'after': [], 'before': [], 'eafter': [[1, [2, 2], 2], [3, [1, 3], 1]]})
+    # declarations inside the app's OWN sequence: redundant (earlier target) ...
+    out.append({'napps': 3, 'applied': [1, 0, 0], 'pending': [3, 1, 0], 'newm': [False, False, True],
+                'after': [], 'before': [], 'eafter': [[1, [1, 2], 2], [1, [1, 1], 3]]})
+    # ... contradicting the SEQUENCE (a later target; the bare own label)
+    out.append({'napps': 3, 'applied': [0, 0, 0], 'pending': [2, 1, 0], 'newm': [False, False, True],
+                'after': [], 'before': [], 'eafter': [[1, [1, 2], 1]]})
+    out.append({'napps': 3, 'applied': [1, 1, 0], 'pending': [3, 1, 0], 'newm': [False, False, True],
+                'after': [], 'before': [], 'eafter': [[1, [1, 4], 2]]})
+    out.append({'napps': 3, 'applied': [1, 1, 0], 'pending': [2, 1, 0], 'newm': [True, False, True],
+                'after': [], 'before': [], 'eafter': [[1, [1, 0], 1]]})
     return out
 
 
@@ -243,7 +253,9 @@ def sample_configs(rng, napps, count, maxpending=3):
             cands = [a for a in apps if pending[a - 1] > 0]
             if cands:
                 a = rng.choice(cands)
-                b = rng.choice([x for x in apps if x != a])
+                # one in four names the app's OWN evolutions (redundant when earlier in SEQUENCE,
+                # contradictory - to be reported - when later, or when it is the bare own label)
+                b = a if rng.random() < 0.25 else rng.choice([x for x in apps if x != a])
                 tot = applied[b - 1] + pending[b - 1]
                 kk = rng.randint(1, pending[a - 1])
                 if rng.random() < 0.3:
@@ -252,6 +264,8 @@ def sample_configs(rng, napps, count, maxpending=3):
                     ent = [a, [b, rng.randint(1, tot)], kk]
                 else:
                     continue
+                if b == a and ent[1][1] == applied[a - 1] + kk:
+                    continue        # an evolution naming itself: not a requirement between two units
                 if ent not in eafter:
                     eafter.append(ent)
         out.append({'napps': napps, 'applied': applied, 'pending': pending, 'newm': newm,
